@@ -119,7 +119,8 @@ pub fn alphabet() -> Vec<Sym> {
     v
 }
 
-/// A 12-symbol class alphabet for the loop leg: one or two representatives per behaviour class.
+/// A 14-symbol class alphabet for the loop leg: one or two representatives per behaviour class (three for a broken
+/// connection: orphaned stream ids, socket write error, keepalive timeout).
 pub fn class_alphabet() -> Vec<Sym> {
     let want = [
         "Unavailable(alive=0)",
@@ -131,11 +132,13 @@ pub fn class_alphabet() -> Vec<Sym> {
         "WriteTimeout(BATCH_LOG,received=0)",
         "WriteTimeout(SIMPLE,received=1)",
         "BrokenConnection",
+        "BrokenConnection:WriteError(BrokenPipe)",
+        "BrokenConnection:KeepaliveTimeout",
         "Overloaded",
         "SyntaxError",
         "CqlResultParseError",
     ];
-    let all = alphabet();
+    let all = extended_alphabet();
     let mut out = Vec::new();
     for w in want {
         let s = all.iter().find(|s| s.name == w).unwrap_or_else(|| vcore::machinery_error(&format!("class alphabet symbol {w} missing")));
@@ -225,4 +228,100 @@ impl MinViolations {
             r.violation(k, text, case.clone());
         }
     }
+}
+
+/// The enlarged alphabet: `alphabet()` plus ONE SYMBOL PER VARIANT (not per family) of every non-database error
+/// family a policy or the loop could branch on: every constructible `BrokenConnectionErrorKind` (with its nested
+/// frame-header / event-handling variants and several `io::ErrorKind` payloads), and every variant of the
+/// parse / serialisation / unexpected-response families of `RequestAttemptError`.
+/// A broken connection of ANY kind is "may have been applied" (the router hands the same error to every request
+/// in flight on the connection, including ones fully written earlier).
+pub fn extended_alphabet() -> Vec<Sym> {
+    use scylla::errors::*;
+    use scylla_cql_core::frame::TryFromPrimitiveError;
+    use scylla_cql_core::frame::frame_errors::{FrameHeaderParseError, LowLevelDeserializationError};
+    use std::io::{Error as IoError, ErrorKind};
+    use std::sync::Arc;
+    let mut v = alphabet();
+    let io = |k: ErrorKind| IoError::new(k, "verif");
+    let low = || LowLevelDeserializationError::TooFewBytesReceived { expected: 4, received: 1 };
+    #[derive(Debug)]
+    struct E;
+    impl std::fmt::Display for E {
+        fn fmt(&self, f: &mut std::fmt::Formatter<'_>) -> std::fmt::Result {
+            write!(f, "verif")
+        }
+    }
+    impl std::error::Error for E {}
+    let mut broken: Vec<(String, BrokenConnectionErrorKind)> = Vec::new();
+    for k in [ErrorKind::BrokenPipe, ErrorKind::ConnectionReset, ErrorKind::ConnectionAborted, ErrorKind::TimedOut, ErrorKind::WouldBlock, ErrorKind::WriteZero, ErrorKind::Other] {
+        broken.push((format!("WriteError({k:?})"), BrokenConnectionErrorKind::WriteError(io(k))));
+    }
+    for k in [ErrorKind::UnexpectedEof, ErrorKind::ConnectionReset, ErrorKind::TimedOut] {
+        broken.push((format!("FrameHeaderParseError(HeaderIoError({k:?}))"), BrokenConnectionErrorKind::FrameHeaderParseError(FrameHeaderParseError::HeaderIoError(io(k)))));
+        broken.push((format!("FrameHeaderParseError(BodyChunkIoError({k:?}))"), BrokenConnectionErrorKind::FrameHeaderParseError(FrameHeaderParseError::BodyChunkIoError(17, io(k)))));
+    }
+    broken.push(("FrameHeaderParseError(FrameFromClient)".into(), BrokenConnectionErrorKind::FrameHeaderParseError(FrameHeaderParseError::FrameFromClient)));
+    broken.push(("FrameHeaderParseError(FrameFromServer)".into(), BrokenConnectionErrorKind::FrameHeaderParseError(FrameHeaderParseError::FrameFromServer)));
+    broken.push(("FrameHeaderParseError(VersionNotSupported)".into(), BrokenConnectionErrorKind::FrameHeaderParseError(FrameHeaderParseError::VersionNotSupported(5))));
+    broken.push((
+        "FrameHeaderParseError(UnknownResponseOpcode)".into(),
+        BrokenConnectionErrorKind::FrameHeaderParseError(FrameHeaderParseError::UnknownResponseOpcode(TryFromPrimitiveError::new("ResponseOpcode", 0x77u8))),
+    ));
+    broken.push(("FrameHeaderParseError(ConnectionClosed)".into(), BrokenConnectionErrorKind::FrameHeaderParseError(FrameHeaderParseError::ConnectionClosed(3, 9))));
+    broken.push(("KeepaliveTimeout".into(), BrokenConnectionErrorKind::KeepaliveTimeout("127.0.0.1".parse().unwrap())));
+    broken.push(("KeepaliveRequestError".into(), BrokenConnectionErrorKind::KeepaliveRequestError(Arc::new(E))));
+    broken.push(("CqlEventHandlingError(SendError)".into(), BrokenConnectionErrorKind::CqlEventHandlingError(CqlEventHandlingError::SendError)));
+    broken.push(("CqlEventHandlingError(UnexpectedResponse)".into(), BrokenConnectionErrorKind::CqlEventHandlingError(CqlEventHandlingError::UnexpectedResponse(CqlResponseKind::Result))));
+    broken.push((
+        "CqlEventHandlingError(BodyExtensionParseError)".into(),
+        BrokenConnectionErrorKind::CqlEventHandlingError(CqlEventHandlingError::BodyExtensionParseError(FrameBodyExtensionsParseError::NoCompressionNegotiated)),
+    ));
+    broken.push((
+        "CqlEventHandlingError(CqlEventParseError)".into(),
+        BrokenConnectionErrorKind::CqlEventHandlingError(CqlEventHandlingError::CqlEventParseError(CqlEventParseError::UnknownEventType("X".into()))),
+    ));
+    broken.push(("UnexpectedStreamId".into(), BrokenConnectionErrorKind::UnexpectedStreamId(77)));
+    broken.push(("ChannelError".into(), BrokenConnectionErrorKind::ChannelError));
+    for (n, k) in broken {
+        v.push(Sym { name: format!("BrokenConnection:{n}"), class: ErrClass::BrokenConnection, err: RequestAttemptError::BrokenConnectionError(k.into()) });
+    }
+    // the other non-database families, one symbol per variant
+    let mut client: Vec<(String, RequestAttemptError)> = Vec::new();
+    let tfi = || u8::try_from(300i32).unwrap_err();
+    use scylla_cql_core::frame::frame_errors as fe;
+    client.push(("CqlRequestSerialization(StartupSerialization)".into(), RequestAttemptError::CqlRequestSerialization(fe::StartupSerializationError::OptionsSerialization(tfi()).into())));
+    client.push(("CqlRequestSerialization(RegisterSerialization)".into(), RequestAttemptError::CqlRequestSerialization(fe::RegisterSerializationError::EventTypesSerialization(tfi()).into())));
+    client.push(("CqlRequestSerialization(AuthResponseSerialization)".into(), RequestAttemptError::CqlRequestSerialization(fe::AuthResponseSerializationError::ResponseSerialization(tfi()).into())));
+    client.push(("CqlRequestSerialization(SnapCompressError)".into(), RequestAttemptError::CqlRequestSerialization(CqlRequestSerializationError::SnapCompressError(Arc::new(E)))));
+    client.push(("BodyExtensionsParseError(TraceIdParse)".into(), RequestAttemptError::BodyExtensionsParseError(FrameBodyExtensionsParseError::TraceIdParse(low()))));
+    client.push(("BodyExtensionsParseError(WarningsListParse)".into(), RequestAttemptError::BodyExtensionsParseError(FrameBodyExtensionsParseError::WarningsListParse(low()))));
+    client.push(("BodyExtensionsParseError(CustomPayloadMapParse)".into(), RequestAttemptError::BodyExtensionsParseError(FrameBodyExtensionsParseError::CustomPayloadMapParse(low()))));
+    client.push(("BodyExtensionsParseError(SnapDecompressError)".into(), RequestAttemptError::BodyExtensionsParseError(FrameBodyExtensionsParseError::SnapDecompressError(Arc::new(E)))));
+    client.push(("BodyExtensionsParseError(Lz4DecompressError)".into(), RequestAttemptError::BodyExtensionsParseError(FrameBodyExtensionsParseError::Lz4DecompressError(Arc::new(E)))));
+    client.push(("CqlResultParseError(ResultIdParseError)".into(), RequestAttemptError::CqlResultParseError(CqlResultParseError::ResultIdParseError(low()))));
+    client.push(("CqlResultParseError(SetKeyspaceParseError)".into(), RequestAttemptError::CqlResultParseError(CqlResultParseError::SetKeyspaceParseError(fe::SetKeyspaceParseError::MalformedKeyspaceName(low())))));
+    client.push(("CqlErrorParseError(ReasonParseError)".into(), RequestAttemptError::CqlErrorParseError(CqlErrorParseError::ReasonParseError(low()))));
+    client.push(("CqlErrorParseError(MalformedErrorField)".into(), RequestAttemptError::CqlErrorParseError(CqlErrorParseError::MalformedErrorField { db_error: "UNAVAILABLE", field: "alive", err: low() })));
+    for k in [CqlResponseKind::Error, CqlResponseKind::Authenticate, CqlResponseKind::Supported, CqlResponseKind::Result, CqlResponseKind::Event, CqlResponseKind::AuthChallenge, CqlResponseKind::AuthSuccess] {
+        client.push((format!("UnexpectedResponse({k:?})"), RequestAttemptError::UnexpectedResponse(k)));
+    }
+    for (n, e) in client {
+        v.push(Sym { name: n, class: ErrClass::ClientSide, err: e });
+    }
+    v
+}
+
+/// Every `ConnectionPoolError` variant (with several last-connection errors): what a plan target without a
+/// connection may answer. Policies never see these; the loop must skip the target whatever the variant.
+pub fn pool_errors() -> Vec<scylla::errors::ConnectionPoolError> {
+    use scylla::errors::*;
+    vec![
+        ConnectionPoolError::Initializing,
+        ConnectionPoolError::NodeDisabledByHostFilter,
+        ConnectionPoolError::Broken { last_connection_error: ConnectionError::ConnectTimeout },
+        ConnectionPoolError::Broken { last_connection_error: ConnectionError::IoError(std::sync::Arc::new(std::io::Error::new(std::io::ErrorKind::ConnectionRefused, "verif"))) },
+        ConnectionPoolError::Broken { last_connection_error: ConnectionError::NoSourcePortForShard(3) },
+        ConnectionPoolError::Broken { last_connection_error: ConnectionError::BrokenConnection(BrokenConnectionErrorKind::WriteError(std::io::Error::new(std::io::ErrorKind::BrokenPipe, "verif")).into()) },
+    ]
 }
